@@ -300,3 +300,12 @@ class VerifUnhashableReprContextProcessor(ContextProcessor):
             def __repr__(self):
                 raise RuntimeError("verif: repr not available")
         self._notify_context_update("odd", Odd())
+
+
+class VerifFailOnOperation(FloatOperation):
+    """Passes its input through, except that it raises when the input equals `bad`."""
+
+    def _process_logic(self, data, bad):
+        if data.data == bad:
+            raise ValueError("verif: deliberate failure on %r" % (bad,))
+        return FloatDataType(data.data)
